@@ -37,7 +37,7 @@ type readerEv struct {
 // readerTarget: optional fields for the keys 0..23, each accepting any value.
 var readerTargetType = func() reflect.Type {
 	fs := []reflect.StructField{}
-	raw := reflect.TypeOf((*cbor.RawMessage)(nil))
+	raw := reflect.TypeOf(cbor.RawMessage(nil)) // not a pointer: null / undefined must still count as populated
 	for k := 0; k < 24; k++ {
 		fs = append(fs, reflect.StructField{Name: "F" + itoa(k), Type: raw,
 			Tag: reflect.StructTag(`cbor:"` + itoa(k) + `,keyasint,omitempty" json:"f` + itoa(k) + `,omitempty"`)})
@@ -60,11 +60,21 @@ func observeReader(b int, input []byte) readerEv {
 	for _, x := range input {
 		ev.Input = append(ev.Input, int(x))
 	}
+	surrogate := map[int]int{}
 	for p := 0; p <= len(input)+1; p++ {
 		k, v := orcKey{}, orcVal{}
 		if p < len(input) {
 			var key int
-			if rest, err := xdm.UnmarshalFirst(input[p:], &key); err == nil && key >= -2147483648 && key <= 2147483647 {
+			if rest, err := xdm.UnmarshalFirst(input[p:], &key); err == nil {
+				// beyond TLC's integers: a surrogate, one per distinct value, so that equal keys stay equal
+				if key < -1000000000 || key > 1000000000 {
+					sv, seen := surrogate[key]
+					if !seen {
+						sv = 2000000000 + len(surrogate)
+						surrogate[key] = sv
+					}
+					key = sv
+				}
 				k = orcKey{OK: true, V: key, N: len(input) - p - len(rest)}
 			}
 			var raw cbor.RawMessage
@@ -91,7 +101,7 @@ func observeReader(b int, input []byte) readerEv {
 	default:
 		ev.Out = "ok"
 		for k := 0; k < 24; k++ {
-			if !dest.Elem().Field(k).IsNil() {
+			if dest.Elem().Field(k).Len() > 0 {
 				ev.Keys = append(ev.Keys, k)
 			}
 		}
@@ -100,6 +110,9 @@ func observeReader(b int, input []byte) readerEv {
 }
 
 var readerAlphabet = []byte{0x00, 0x01, 0x17, 0x18, 0xa0, 0xa1, 0xa2, 0xb8, 0xb9, 0xba, 0xbb, 0xbc, 0xbf, 0xc0, 0xd8, 0xff}
+
+// values the exhaustive alphabet lacks: null, undefined, negative, empty bytes / text / array, false, break-less float
+var readerExtras = []byte{0xf6, 0xf7, 0x20, 0x38, 0x40, 0x60, 0x80, 0xf4, 0xf9, 0x1b, 0x3b}
 
 func init() {
 	drivers["codec-reader"] = func(a *Args) {
@@ -137,8 +150,10 @@ func init() {
 			n := 5 + cc.r.Intn(8)
 			in := make([]byte, n)
 			for i := range in {
-				if cc.r.Intn(5) == 0 {
+				if c := cc.r.Intn(10); c < 2 {
 					in[i] = byte(cc.r.Intn(256))
+				} else if c == 2 {
+					in[i] = readerExtras[cc.r.Intn(len(readerExtras))]
 				} else {
 					in[i] = readerAlphabet[cc.r.Intn(len(readerAlphabet))]
 				}
